@@ -8,7 +8,7 @@
      TABLE = ((#KEY #uncompressed) ...), KEY = codec byte followed by the compressed bytes, instantiates `decompress` (phase 2; trusted: cramjam)
      STRICT = 1: a bit-packed run must be present in full; 0: only the bytes of the values needed. *)
 From Coq Require Import NArith ZArith List String Ascii Bool.
-From Pq Require Import Base.Bytes Base.ListX Extract.Sx Thrift.Compact Codec.Hybrid Format.Phys Format.Meta Format.Page Format.File Format.Enc Impl.RPages.
+From Pq Require Import Base.Bytes Base.ListX Extract.Sx Thrift.Compact Codec.Hybrid Format.Phys Format.Meta Format.Page Format.File Format.Enc Impl.RPages Impl.RChunk.
 From Pq Require Extract.Cmd_Thrift.
 Import ListNotations.
 Open Scope string_scope.
@@ -204,6 +204,24 @@ Definition h_fmt_rd_data_page (a : list sx) : sx :=
   | _ => err "arity"
   end.
 
+(* impl model of the page loop of core.read_col (Impl/RChunk.v)
+     (fmt_rd_chunk INPLACE TYPE TLEN MAXDEF CODEC ROWS #chunk TABLE) -> (ok (CELL ...)) | (bad why) | (uns why) *)
+Definition h_fmt_rd_chunk (a : list sx) : sx :=
+  match a with
+  | [ip; ty; tl; md; co; rows; ch; t] =>
+    match as_bool ip, as_Z ty, as_N tl, as_N md, as_Z co, as_N rows, as_bytes ch, as_table t with
+    | Some ip, Some ty, Some tl, Some md, Some co, Some rows, Some ch, Some t =>
+      match ptype_of_id ty with
+      | Some pt =>
+        s_rs (fun cells => [slist s_cell cells])
+             (rd_chunk (table_decompress t) ch ip {| cd_type := pt; cd_tlen := tl; cd_maxdef := md |} co rows None ch 0 [])
+      | None => err "args"
+      end
+    | _, _, _, _, _, _, _, _ => err "args"
+    end
+  | _ => err "arity"
+  end.
+
 Definition table : list (string * handler) :=
-  [("fmt_rd_data_page", h_fmt_rd_data_page); ("fmt_pages", h_fmt_pages); ("fmt_validate", h_fmt_validate); ("fmt_decode", h_fmt_decode);
+  [("fmt_rd_chunk", h_fmt_rd_chunk); ("fmt_rd_data_page", h_fmt_rd_data_page); ("fmt_pages", h_fmt_pages); ("fmt_validate", h_fmt_validate); ("fmt_decode", h_fmt_decode);
    ("fmt_payloads", h_fmt_payloads); ("fmt_encode", h_fmt_encode); ("fmt_table", h_fmt_table)].
